@@ -79,6 +79,11 @@ def build(sh, normalize_kv=None, span_func=None, cls=None, evaluator=None, share
         w_ = o.weights
         w_[0] = w_[0] / 2.0
         o.weights = w_
+    if f["rat"] and not alt_repr and not share_kv and not edit_back and not by_setters:
+        # the weights assigned once more from a list of the caller's (same values): that list is scribbled over below as well
+        _W = [float(w) for w in o.weights]
+        o.weights = _W
+        _handed.append(_W)
     if not alt_repr and not share_kv:
         _handed.append(_P)
         if normalize_kv:
